@@ -41,10 +41,11 @@ fn worlds() -> Vec<Items> {
     vec![
         vec![],
         vec![(TypeId::Ordinal(1), 0, vec![5, 6])],
-        vec![(TypeId::Ordinal(1), 0, vec![5, 7]), (TypeId::Uuid(u1()), 3, vec![1])],
+        // (an item without any data: it adds nothing to the checksum)
+        vec![(TypeId::Ordinal(1), 0, vec![5, 7]), (TypeId::Uuid(u1()), 3, vec![1]), (TypeId::Ordinal(3), 7, vec![])],
         vec![(TypeId::Uuid(u2()), 3, vec![1, 2, 3]), (TypeId::Ordinal(2), 9, vec![4])],
         vec![(TypeId::Ordinal(2), 9, big), (TypeId::Ordinal(1), 0, vec![0, 0])],
-        vec![(TypeId::Uuid(u1()), 3, vec![2]), (TypeId::Uuid(u2()), 4, vec![1, 2, 3])],
+        vec![(TypeId::Uuid(u1()), 3, vec![2]), (TypeId::Uuid(u2()), 4, vec![1, 2, 3]), (TypeId::Uuid(u2()), 5, vec![0, 0, 0])],
         // 6, 7, 8: different worlds with the same checksum (two items swap their values, one
         // item changes its id) - the checksum cannot tell them apart, so a delta applied to
         // the wrong base is accepted unless the tick bookkeeping is right
